@@ -1555,7 +1555,10 @@ fn exec_c09(case: &Case, obs: &mut Obs) -> Result<(), Failure> {
     // each into a fresh empty writer; refused values last.
     let values = &case.values;
     let full = matches!(case.writer, WriterCfg::Full(_));
-    let refs: Vec<Option<Vec<u8>>> = on_fresh_thread(|| {
+    // (a thread of their own only when the history held a refused encode:
+    // that is when something can have been left behind on this one)
+    let needs_fresh_thread = segments.iter().any(|s| s.refused.is_some());
+    let take_refs = || {
         let mut order: Vec<usize> = segments.iter().flat_map(|s| s.values.iter().copied()).collect();
         order.extend(segments.iter().filter_map(|s| s.refused.as_ref().map(|r| r.0)));
         let mut out: Vec<Option<Vec<u8>>> = vec![None; values.len()];
@@ -1565,7 +1568,8 @@ fn exec_c09(case: &Case, obs: &mut Obs) -> Result<(), Failure> {
             }
         }
         out
-    });
+    };
+    let refs: Vec<Option<Vec<u8>>> = if needs_fresh_thread { on_fresh_thread(take_refs) } else { take_refs() };
     for seg in &segments {
         if let Some((i, why)) = &seg.refused {
             // encodable alone but refused here: only a full writer may do that
